@@ -139,6 +139,27 @@ Section All.
     exists t, build cmp i h = Ok t /\ Permutation (trav_list o t) (s_build cmp h).
   Proof. intros. eapply traversal_generic; [apply refines_all|apply forallb_true|auto]. Qed.
 
+  (** the history continues on a SelectMatch / PartitionMatch result: same refinement *)
+  Theorem selection_all (i : impl) (h : list (mut K V)) p (h2 : list (mut K V)) (ops : list (op K V)) :
+    forallb abstract_op ops = true ->
+    exists t t' t'', build cmp i h = Ok t /\ SelectMatch cmp i p t = Ok t' /\
+      build_from cmp i t' h2 = Ok t'' /\ inv_of i t'' /\
+      inorder t'' = s_build_from cmp (filter (holds p) (s_build cmp h)) h2 /\
+      run_from cmp eqv i t'' ops = map Ok (s_run_from cmp eqv (inorder t'') ops).
+  Proof.
+    intros HA. apply (selection_continues cmp eqv TO i _ _ (refines_all i)); auto using forallb_true, all_allowed.
+  Qed.
+
+  Theorem partition_all (i : impl) (h : list (mut K V)) p (second : bool) (h2 : list (mut K V)) (ops : list (op K V)) :
+    forallb abstract_op ops = true ->
+    exists t ta tb t'', build cmp i h = Ok t /\ PartitionMatch cmp i p t = (Ok ta, Ok tb) /\
+      build_from cmp i (if second then tb else ta) h2 = Ok t'' /\ inv_of i t'' /\
+      inorder t'' = s_build_from cmp (filter (fun e => if second then negb (holds p e) else holds p e) (s_build cmp h)) h2 /\
+      run_from cmp eqv i t'' ops = map Ok (s_run_from cmp eqv (inorder t'') ops).
+  Proof.
+    intros HA. apply (partition_continues cmp eqv TO i _ _ (refines_all i)); auto using forallb_true, all_allowed.
+  Qed.
+
   Theorem build_all (i : impl) (h : list (mut K V)) :
     exists t, build cmp i h = Ok t /\ inorder t = s_build cmp h /\ sorted cmp (inorder t) /\ sizes_ok t.
   Proof.
